@@ -98,6 +98,13 @@ def dependency_units(mod, prop, units, info):
     return out
 
 
+def _lockable(name):
+    """only obligations that state something about the property are pinned; side conditions whose presence depends on how
+    the code happens to be written (a callee's precondition at a call site, absence of overflow, stores) may come and go
+    with harmless refactors"""
+    return "/pre@" not in name and not name.endswith("/no-overflow") and "/frame/" not in name
+
+
 def _group_names(names, unit_names):
     """obligation names grouped by the proof unit they belong to (longest unit-name prefix)"""
     units = sorted(unit_names, key=len, reverse=True)
@@ -268,7 +275,7 @@ def report(mod, prop, tier, seed, units, results, extra, t0, origin, args):
     unit_by_name = {u.name: u for u in units}
     violations = []
     known_hits = []
-    rdir = os.path.join(HERE, "replays", prop)
+    rdir = os.path.join(os.environ.get("PYVC_REPLAY_DIR") or os.path.join(HERE, "replays"), prop)
     if os.path.isdir(rdir):
         for fn in os.listdir(rdir):
             os.unlink(os.path.join(rdir, fn))
@@ -344,12 +351,12 @@ def report(mod, prop, tier, seed, units, results, extra, t0, origin, args):
     lock = json.load(open(lock_path)) if os.path.exists(lock_path) else {}
     lkey = "%s/%s" % (prop, tier)
     lost = []
-    if not args.unit:
+    if not args.unit and not args.no_deps:
         if args.write_lock:
             if failed or undecided or errors:
                 print("CHECKER-ERROR: refusing to write the obligation lock from a run that is not clean")
                 return 3
-            lock[lkey] = _group_names(sorted(obligations), [u.name for u in units])
+            lock[lkey] = _group_names(sorted(n for n in obligations if _lockable(n)), [u.name for u in units])
             json.dump(lock, open(lock_path, "w"), indent=0, sort_keys=True)
         elif lkey in lock:
             have = set(obligations)
